@@ -110,6 +110,13 @@ def cases(seed, tier):
     return out
 
 
+def extra(seed, tier, workdir):
+    """the same workload (every family, evenly sub-sampled) on the ASan/UBSan build of the pinned engine"""
+    from . import _sanitizer
+
+    return _sanitizer.asan_stage_on_sample('C09', 'biomon.checks.c09', cases(seed + 1000, tier), workdir, tier, 48, 1200)
+
+
 def warmup():
     import biogeme.biogeme  # noqa
     import biogeme.expressions  # noqa
